@@ -1,12 +1,15 @@
 /-
 C10 / C14 — part 3: `merge_copyright_lines` and the order of the set it iterates over.
 
-`mergeLines` is *not* a function of the set: for one holder it takes the most frequent prefix of the holder's
-lines, and the first of the numerically smallest / largest years — ties go to the line met first, i.e. to the
-iteration order of the Python `set` (`Counter.most_common`, `min(..., key=int)`).  This file gives the exact
-condition under which the order does not matter (`MergeStable`: per holder, all most frequent prefixes lead to
-the same prefix text, and no two different year texts have the same numeric value), proves that under it two
-orders of one set give the same merged lines up to order, and states the two kinds of tie as witnesses.
+The loop of `merge_copyright_lines` (`mergeLinesWith`: the lines in the order in which they are met) is *not* a
+function of the set: for one holder it takes the most frequent prefix of the holder's lines, and the first of the
+numerically smallest / largest years — ties go to the line met first (`Counter.most_common`, `min(..., key=int)`).
+Until fixes/c10-merge-order.diff the loop ran over the iteration order of the Python `set`; now it runs over
+`sorted(...)` (`mergeLines = mergeLinesWith ∘ sortTexts`, a function of the set: `mergeLines_perm_eq`).  This file
+documents why the sort is needed: it gives the exact condition under which the order of the loop does not matter
+(`MergeStable`: per holder, all most frequent prefixes lead to the same prefix text, and no two different year
+texts have the same numeric value), proves that under it two orders give the same merged lines up to order, and
+states the two kinds of tie as witnesses.
 -/
 import ReuseVerif.Lemmas.C10OrderHeader
 import ReuseVerif.Lemmas.C20MergeLines
@@ -177,14 +180,19 @@ theorem mergeLinesWith_perm (endRe : Re) {l₁ l₂ : List Text} (h : l₁.Perm 
     (hs : MergeStable (parseLines endRe l₁)) : (mergeLinesWith endRe l₁).Perm (mergeLinesWith endRe l₂) :=
   mergeParsed_perm (h.filterMap _) hs
 
-theorem mergeLines_perm {l₁ l₂ : List Text} (h : l₁.Perm l₂)
-    (hs : MergeStable (parseLines Generated.endRe l₁)) : (mergeLines l₁).Perm (mergeLines l₂) :=
-  mergeLinesWith_perm _ h hs
-
 /-- … and on two lists with the same members, both duplicate-free (two iteration orders of one set) -/
-theorem mergeLines_sameMembers {l₁ l₂ : List Text} (h : SameMembers l₁ l₂) (h1 : l₁.Nodup) (h2 : l₂.Nodup)
-    (hs : MergeStable (parseLines Generated.endRe l₁)) : (mergeLines l₁).Perm (mergeLines l₂) :=
-  mergeLines_perm (h.perm h1 h2) hs
+theorem mergeLinesWith_sameMembers (endRe : Re) {l₁ l₂ : List Text} (h : SameMembers l₁ l₂) (h1 : l₁.Nodup)
+    (h2 : l₂.Nodup) (hs : MergeStable (parseLines endRe l₁)) :
+    (mergeLinesWith endRe l₁).Perm (mergeLinesWith endRe l₂) :=
+  mergeLinesWith_perm endRe (h.perm h1 h2) hs
+
+/-- with the sort: two iteration orders of one set merge to the same list -/
+theorem mergeLines_sameMembers {l₁ l₂ : List Text} (h : SameMembers l₁ l₂) (h1 : l₁.Nodup) (h2 : l₂.Nodup) :
+    mergeLines l₁ = mergeLines l₂ := mergeLines_perm_eq (h.perm h1 h2)
+
+/-- what the sort fixes: `mergeLines` is the loop run over the ascending permutation of the input -/
+theorem mergeLines_eq (lines : List Text) :
+    mergeLines lines = mergeParsed (parseLines Generated.endRe (sortTexts lines)) := rfl
 
 /-! ### witnesses: the two kinds of tie -/
 
